@@ -212,6 +212,17 @@ func checkIgnoreAndCwd(c *c15Case) (key, msg string, stats map[string]int) {
 		{"cwd=unrelated,relative", filepath.Join(w.Root, "elsewhere"), []string{rel(filepath.Join(w.Root, "elsewhere"))}},
 		{"cwd=unrelated,absolute", filepath.Join(w.Root, "elsewhere"), []string{file}},
 	}
+	// the same repository reached through a symbolic link to its root directory
+	link := filepath.Join(w.Root, "elsewhere", "link-to-repo")
+	if err := os.Symlink(repoRoot, link); err == nil {
+		viaLink := filepath.Join(link, c.File)
+		invs = append(invs,
+			inv{"cwd=parent,through-symlink-absolute", w.Root, []string{viaLink}},
+			inv{"cwd=unrelated,through-symlink-relative", filepath.Join(w.Root, "elsewhere"), []string{filepath.Join("link-to-repo", c.File)}},
+			inv{"cwd=symlink,relative", link, []string{c.File}},
+			inv{"cwd=symlink,no-argument", link, nil},
+		)
+	}
 	for _, iv := range invs {
 		got, exit, stderr, err := runActionlint(iv.cwd, append(append([]string{}, flags...), iv.args...)...)
 		if err != nil {
@@ -309,7 +320,7 @@ func TestC15(t *testing.T) {
 		t.Fatalf("actionlint binary not built: %v", err)
 	}
 	hx.Main(t, "C15", func(r *hx.Run) {
-		r.Rule = "temporary world: a repository (optionally nested two levels down, optionally next to a sibling repository whose name shares its prefix and whose configuration ignores everything) with a workflow producing 0-8 distinct diagnostics, a configuration with 0-3 `paths` globs (matching all yaml, the workflows directory, the exact file, nothing) each with ignore regexes, and 0-3 -ignore regexes; regexes are escaped fragments of the unfiltered messages (matching none/some/all), also with inline flags such as (?i). Each world is run through the built actionlint binary from 12 (cwd, path spelling) combinations: repository root / parent / nested / unrelated directory x relative / ./ / absolute / no argument. Oracle: output = unfiltered list (same world without configuration and -ignore) minus messages matched by an applicable pattern (glob matched against the repository-relative path by the harness), identical for all combinations; exit status 1 iff diagnostics remain, 0 iff none, 3 for an invalid regex, 2 for an invalid flag. Non-trivial = >= 1 diagnostic removed and >= 1 kept, or a matching `paths` glob with cwd != repository root; distinct = case hash."
+		r.Rule = "temporary world: a repository (optionally nested two levels down, optionally next to a sibling repository whose name shares its prefix and whose configuration ignores everything) with a workflow producing 0-8 distinct diagnostics, a configuration with 0-3 `paths` globs (matching all yaml, the workflows directory, the exact file, nothing) each with ignore regexes, and 0-3 -ignore regexes; regexes are escaped fragments of the unfiltered messages (matching none/some/all), also with inline flags such as (?i). Each world is run through the built actionlint binary from 16 (cwd, path spelling) combinations: repository root / parent / nested / unrelated directory x relative / ./ / absolute / no argument, plus four spellings through a symbolic link to the repository root. Oracle: output = unfiltered list (same world without configuration and -ignore) minus messages matched by an applicable pattern (glob matched against the repository-relative path by the harness), identical for all combinations; exit status 1 iff diagnostics remain, 0 iff none, 3 for an invalid regex, 2 for an invalid flag. Non-trivial = >= 1 diagnostic removed and >= 1 kept, or a matching `paths` glob with cwd != repository root; distinct = case hash."
 		r.Assumptions = []string{"file names are plain ASCII", "regexes are built from escaped message fragments so that the reference (Go regexp on messages) cannot disagree about regexp semantics"}
 		r.Check(t, "worlds", hx.N(150, 4000), func(rt *rapid.T) {
 			var wfb strings.Builder
